@@ -845,6 +845,60 @@ fn reowned(spec: &ZoneSpec, w: &World, l: &mut Local) {
     }
 }
 
+/// End-to-end confirmation of the `record-zone-does-not-enclose-qname:*:nosoa` findings: the
+/// operator of an UNRELATED signed zone `o.` publishes and signs (with o.'s own key, through the
+/// real `RRSIG::from_rrset`) the NSEC3 record `<H(z.)>.o.` with an empty-ish bitmap; a response to
+/// `z. A` without SOA that carries this record (and its RRSIG) goes through the real
+/// `DnssecDnsHandle` with both zone keys as trust anchors. The apex `z.` exists and owns NS/SOA;
+/// the response claims NODATA for `z. NS` — false — on the strength of another zone's record.
+fn e2e_foreign_zone_nsec3(rt: &tokio::runtime::Runtime, l: &mut Local) {
+    use hickory_proto::dnssec::rdata::{DNSSECRData, RRSIG};
+    use hickory_proto::rr::{DNSClass, RData, RecordSet};
+    let Ok(o_zone) = vzone::build(&ZoneSpec::new("o.", &[]), &Signing::Nsec3 { iterations: 0, salt: vec![], opt_out: false }) else { return };
+    let o = vzone::hname("o.");
+    let (signer, _) = vzone::zone_key("o.");
+    let target = Name::parse("z.");
+    let h = dn::nsec3_hash(&target, &[], 0);
+    let owner = o.prepend_label(dn::base32hex(&h)).unwrap();
+    let mut next = h.clone();
+    *next.last_mut().unwrap() ^= 1;
+    let n3 = NSEC3::new(Default::default(), false, 0, vec![], next, [RecordType::TXT, RecordType::RRSIG]);
+    let mut rrset = RecordSet::with_ttl(owner.clone(), RecordType::NSEC3, 300);
+    rrset.add_rdata(RData::DNSSEC(DNSSECRData::NSEC3(n3)));
+    let inception = time::OffsetDateTime::from_unix_timestamp(vsim::unix() as i64).unwrap();
+    let Ok(sig) = RRSIG::from_rrset(&rrset, DNSClass::IN, inception, &signer) else { return };
+    let mut auth: Vec<Record> = rrset.records_without_rrsigs().cloned().collect();
+    auth.push(Record::from_rdata(owner.clone(), 300, RData::DNSSEC(DNSSECRData::RRSIG(sig))));
+    let query = Query::new(vzone::hname("z."), RecordType::NS);
+    let mut m = Message::new(0, MessageType::Response, OpCode::Query);
+    m.add_query(query.clone());
+    m.metadata.authoritative = true;
+    m.add_authorities(auth);
+    let mut key = Message::new(0, MessageType::Response, OpCode::Query);
+    key.add_query(Query::new(o.clone(), RecordType::DNSKEY));
+    key.add_answers(o_zone.rrset_with_sigs(&o, RecordType::DNSKEY));
+    let main = query.clone();
+    let up = Upstream::new(move |q: &Query| {
+        if q.query_type == RecordType::DNSKEY && q.name == o {
+            return Some(key.clone());
+        }
+        if q.name == main.name && q.query_type == main.query_type {
+            return Some(m.clone());
+        }
+        None
+    });
+    l.eval();
+    let e = vzone::validate(rt, up, vzone::anchors(&["z.", "o."]), query, None);
+    l.outcome(&format!("e2e:foreign-zone-nsec3:{}", e.class()));
+    if e.is_secure() {
+        l.violation(
+            "unsound-e2e:NODATA:record-zone-does-not-enclose-qname:unrelated:nosoa",
+            "NODATA for `z. NS` (false: the apex owns NS) is accepted as Secure end to end on an NSEC3 record `<H(z.)>.o.` published and signed by the unrelated zone o. (response without SOA)",
+            || json!({"level": "e2e-foreign", "zone": ZoneSpec::new("z.", &[]).to_json(), "qname": "z.", "qtype": 2, "nsec3_owner": owner.to_string(), "signed_by": "o.", "soa": null}),
+        );
+    }
+}
+
 /// iterations 0..3 x (soft, hard) in {(1,2),(0,0),(2,2)}: above soft never Secure, above hard Bogus.
 fn iteration_limits(spec: &ZoneSpec, rt: &tokio::runtime::Runtime, l: &mut Local, cnt: &Counters) {
     for it in 0u16..=3 {
@@ -912,7 +966,7 @@ fn iteration_limits(spec: &ZoneSpec, rt: &tokio::runtime::Runtime, l: &mut Local
 ///  * 101..=500: never Secure; 501 and 65535: Bogus — every subset, every claim;
 ///  * limits (65535, 65535) with iterations 65535: not above any limit, judged like any other
 ///    zone (Secure => claim true), full chain only (each call hashes ~6 names 65536 times).
-fn boundary_params(spec: &ZoneSpec, rt: &tokio::runtime::Runtime, l: &mut Local, cnt: &Counters) {
+fn boundary_params(spec: &ZoneSpec, top_limits: bool, rt: &tokio::runtime::Runtime, l: &mut Local, cnt: &Counters) {
     let long_salt: Vec<u8> = (0..255u32).map(|i| (i * 7 + 1) as u8).collect();
     for (it, salt) in [(100u16, vec![]), (0, long_salt.clone()), (1, long_salt), (101, vec![]), (500, vec![]), (501, vec![]), (65535, vec![0xab])] {
         let signing = Signing::Nsec3 { iterations: it, salt: salt.clone(), opt_out: false };
@@ -973,7 +1027,7 @@ fn boundary_params(spec: &ZoneSpec, rt: &tokio::runtime::Runtime, l: &mut Local,
                         }
                     }
                     // limits at the top of u16: iterations 65535 is not above them
-                    if it == 65535 {
+                    if it == 65535 && top_limits {
                         let mask = *masks.last().unwrap();
                         let sub: Vec<(&HName, &NSEC3)> = (0..w.recs.len()).filter(|i| mask >> i & 1 == 1).map(|i| (&w.recs[i].0, &w.recs[i].1)).collect();
                         l.eval();
@@ -1068,7 +1122,8 @@ fn main() {
         let rt = vsim::rt();
         ctx.with_local(|l| match case["level"].as_str() {
             Some("limits") => iteration_limits(&spec, &rt, l, &cnt),
-            Some("boundary") => boundary_params(&spec, &rt, l, &cnt),
+            Some("boundary") => boundary_params(&spec, true, &rt, l, &cnt),
+            Some("e2e-foreign") => e2e_foreign_zone_nsec3(&rt, l),
             Some("reowned") => {
                 let w = build_world(&spec, &Signing::from_tag(case["signing"].as_str().unwrap_or("nsec3:i0:s-:noopt")).unwrap()).unwrap();
                 reowned(&spec, &w, l);
@@ -1176,6 +1231,12 @@ fn main() {
         }
     });
 
+    // one end-to-end confirmation of the "records of a zone that does not enclose the query name" findings
+    {
+        let rt = vsim::rt();
+        ctx.with_local(|l| e2e_foreign_zone_nsec3(&rt, l));
+    }
+
     // iteration limits: zones with <= 1 owner
     let lim: Vec<&ZoneSpec> = specs.iter().filter(|s| s.owners.len() <= 1).collect();
     ctx.set("limit_zones", json!(lim.len()));
@@ -1185,7 +1246,11 @@ fn main() {
     // owner of kind A (quick), every zone with <= 1 owner (thorough)
     let bnd: Vec<&ZoneSpec> = specs.iter().filter(|s| s.owners.is_empty() || (s.owners.len() == 1 && (thorough || s.owners[0].1 == Kind::A))).collect();
     ctx.set("boundary_zones", json!(bnd.len()));
-    ctx.par_run_init(bnd.len() as u64, 1, |_| vsim::rt(), |i, l, rt| boundary_params(bnd[i as usize], rt, l, &cnt));
+    // (the limits-65535 part hashes ~6 names 65536 times per call: the empty zone only; thorough: also the one-owner A zones)
+    ctx.par_run_init(bnd.len() as u64, 1, |_| vsim::rt(), |i, l, rt| {
+        let s = bnd[i as usize];
+        boundary_params(s, s.owners.is_empty() || (thorough && s.owners[0].1 == Kind::A), rt, l, &cnt)
+    });
 
     ctx.set("traces_validated_against_impl", json!(cnt.bound.load(Ordering::Relaxed)));
     if ctx.outcome_count("reference-inconsistent") > 0 {
